@@ -659,6 +659,9 @@ pub fn clone_probe<const N: usize>(cfg: &HxCfg, g: &Sodg<N>, m: &Model, hist: &d
 pub fn reload_probe<const N: usize>(g: &Sodg<N>, m: &Model, out: &mut Vec<Finding>, counters: &mut BTreeMap<&'static str, u64>) -> Option<Vec<u8>> {
     let tags: &[&'static str] = &["C08"];
     let f = thread_file("probe");
+    // the path already holds a longer file (a second checkpoint over a bigger first one): save() must
+    // leave exactly the new image there
+    let _ = std::fs::write(&f, vec![0xAAu8; 1 << 16]);
     match guarded(|| g.save(&f)) {
         Err(e) => {
             out.push(Finding::new("save-panic", tags, format!("save() panicked: {e}")));
